@@ -8,3 +8,4 @@ import RosuModel.Props.C01Ieee
 import RosuModel.Props.C01IeeeWitness
 import RosuModel.Props.C01IeeeFuel
 import RosuModel.Props.C01IeeeSurplus
+import RosuModel.Props.C01IeeeSurplusLoop
